@@ -68,6 +68,39 @@ static bool serialize_all_states(const D& doc, std::string& out, vr::Ctx& ctx, c
     WriteBuffer wb((size_t)c);
     one(wb, ("WriteBuffer(" + std::to_string(c) + ")").c_str());
   }
+  // buffers that have been MOVED: storage and capacity of two buffers of different sizes change hands
+  {
+    static Document big;
+    if (big.IsNull()) big.Parse("[\"0123456789012345678901234567890123456789012345678901234567890123456789012345678901234567890123456789012345678901234567890123456789012345678901234567890123456789012345678901234567890123456789012345678901234567890123456789012345678901234567890123456789012345678901234567890123456789012345678901234567890123456789\",[1,2,3,4,5,6,7,8,9,10,11,12,13,14,15,16,17,18,19,20]]");
+    {
+      WriteBuffer grown, small(8);
+      big.Serialize(grown);  // far beyond the default capacity
+      small = std::move(grown);
+      one(small, "move-assigned from a grown buffer");
+      one(grown, "moved-from (was grown), reused");
+    }
+    {
+      WriteBuffer grown, small(8);
+      big.Serialize(grown);
+      grown = std::move(small);
+      one(grown, "grown buffer move-assigned from a small one");
+      one(small, "moved-from (was small), reused");
+    }
+    {
+      WriteBuffer grown;
+      big.Serialize(grown);
+      WriteBuffer ctor(std::move(grown));
+      one(ctor, "move-constructed from a grown buffer");
+      one(grown, "moved-from by construction, reused");
+    }
+    {
+      WriteBuffer a(33), b;
+      big.Serialize(b);
+      std::swap(a, b);
+      one(a, "swapped (now the grown one)");
+      one(b, "swapped (now the small one)");
+    }
+  }
   if (err_out) *err_out = err0;
   return err0 == kErrorNone;
 }
@@ -260,6 +293,16 @@ int main(int argc, char** argv) {
   fams.push_back(t3);
   fams.push_back(t4);
 
+  // T10: the reservation made before each string must hold at EVERY fill level: documents in which many container
+  // closes directly follow a string (nothing but strings and closes in between), serialised into a buffer of every
+  // initial capacity, so that the buffer runs full at every point of the walk (exact-size reallocs under ASan)
+  vr::Family t10;
+  t10.name = "T10_closes_after_strings_x_capacity";
+  t10.count = (uint64_t)3 * 32 * 700;
+  t10.group = "T10";
+  t10.chunk = 256;
+  t10.rule = "d = 1..32 nested containers whose string child follows the nested child ({\"a\":{...},\"b\":\"y\"} / [[...],\"y\"] / objects with a 40-byte string) serialised into WriteBuffer(c) for every c in 0..699: output identical to that of a fresh buffer";
+  fams.push_back(t10);
   // T9: documents whose every block (copied strings: exactly len+1 bytes; node arrays; the padded parse buffer) ends at
   // a PROT_NONE page (fence allocator, see common/fence_alloc.hpp) - decisive in the production builds, where
   // the in-page fast paths that sanitizer builds compile out are active
@@ -274,6 +317,27 @@ int main(int argc, char** argv) {
   t9.rule = "strings of every length 0..130 and 255..257, 511..513, 1023..1025, 4097 in 8 byte patterns (plain; quote / backslash / control byte first, middle, last; all escapable) COPIED into a document whose allocator places every block directly in front of an inaccessible page: as root, array elements, object key + value, after CopyFrom of a parsed document, and parsed in place; full serialisation oracle";
   if (!asan) fams.push_back(t9);  // mprotect-based: production builds only (ASan has its own red zones)
   vr::CheckFn check = [&](const vr::Family& f, uint64_t idx, vr::Ctx& ctx) {
+    if (f.name[0] == 'T' && f.name[1] == '1' && f.name[2] == '0') {
+      unsigned cap = (unsigned)(idx % 700);
+      idx /= 700;
+      unsigned d = (unsigned)(idx % 32) + 1;
+      unsigned shape = (unsigned)(idx / 32);
+      std::string text;
+      const std::string str = shape == 2 ? "\"yyyyyyyyyyyyyyyyyyyyyyyyyyyyyyyyyyyyyyyy\"" : "\"y\"";
+      for (unsigned i = 0; i < d; i++) text += shape == 1 ? "[" : "{\"a\":";
+      text += shape == 1 ? "[]" : "{}";
+      for (unsigned i = 0; i < d; i++) text += shape == 1 ? "," + str + "]" : ",\"b\":" + str + "}";
+      ctx.eval();
+      ctx.nontriv();
+      if (ctx.want_sample) ctx.sample("shape " + std::to_string(shape) + " depth " + std::to_string(d) + " WriteBuffer(" + std::to_string(cap) + ")");
+      Document doc;
+      doc.Parse(text);
+      WriteBuffer fresh, wb((size_t)cap);
+      SonicError e1 = doc.Serialize(fresh), e2 = doc.Serialize(wb);
+      if (e1 != kErrorNone || e2 != kErrorNone || std::string(fresh.ToString(), fresh.Size()) != text || std::string(wb.ToString(), wb.Size()) != text)
+        ctx.violation("buffer_state_dependence", "ser_buffer_state_dependence", text.substr(0, 200), "depth %u shape %u WriteBuffer(%u): err %d/%d, output differs from the compact text", d, shape, cap, (int)e1, (int)e2);
+      return;
+    }
     if (f.name[0] == 'T' && f.name[1] == '9') {
       using FDoc = GenericDocument<DNode<fa::FenceAllocator>>;
       using FN = FDoc::NodeType;
